@@ -3,6 +3,7 @@ package irx
 import (
 	"fmt"
 	"iter"
+	"sync"
 
 	"github.com/gogpu/naga/ir"
 
@@ -23,17 +24,24 @@ func Exec(m *ir.Module, bufs xrt.Buffers, o xrt.Opts) error {
 // Program is a module prepared for execution. It refers to (and must not outlive changes of) the
 // module it was compiled from.
 type Program struct {
+	// EvalUnemittedAtUse relaxes the Emit discipline the way naga's backends do: an expression that
+	// no Emit range covers is evaluated at each use instead of being reported as "used before it was
+	// emitted". Off by default (strict IR semantics). Set it before Run.
+	EvalUnemittedAtUse bool
+
 	m       *ir.Module
 	tt      *typeTable
-	garena  *xfunc  // Module.GlobalExpressions
-	gframe  *frame  // evaluated global expressions
-	consts  []cval  // per constant
+	garena  *xfunc // Module.GlobalExpressions
+	gframe  *frame // evaluated global expressions
+	consts  []cval // per constant
 	globals []xglobal
 	funcs   []*xfunc
 	eps     []*xfunc
 	hasSync []bool // per entry point: reachable code contains barriers
 	cx      *inv   // evaluation context for constant expressions
 	nfuncs  int
+	mu      sync.Mutex
+	scratch []*shared // recycled per-dispatch state
 }
 
 type cval struct {
@@ -65,7 +73,7 @@ type xfunc struct {
 	nwords int
 	image  []uint32 // initial frame contents (literals, constants, zero values)
 	locals []xlocal
-	wgLoad map[ir.ExpressionHandle]bool
+	lazy   []bool // expression is covered by no Emit and is neither pre-emitted nor a statement result
 	result *xtype
 	args   []*xtype
 	id     int
@@ -78,9 +86,9 @@ type xlocal struct {
 }
 
 type edge struct {
-	key  ir.PhiPredKey
-	idx  uint32
-	set  bool
+	key ir.PhiPredKey
+	idx uint32
+	set bool
 }
 
 type frame struct {
@@ -303,7 +311,18 @@ func (p *Program) newFunc(f *ir.Function, name string) *xfunc {
 		for _, a := range f.Arguments {
 			xf.args = append(xf.args, p.tt.handle(a.Type, 0))
 		}
-		xf.wgLoad = map[ir.ExpressionHandle]bool{}
+		covered := make([]bool, len(exprs))
+		walkBlocks(f.Body, func(s ir.Statement) {
+			if e, ok := s.Kind.(ir.StmtEmit); ok && e.Range.Start <= e.Range.End && int(e.Range.End) <= len(exprs) {
+				for h := e.Range.Start; h < e.Range.End; h++ {
+					covered[h] = true
+				}
+			}
+		})
+		xf.lazy = make([]bool, len(exprs))
+		for i := range exprs {
+			xf.lazy[i] = !covered[i] && !xf.ex[i].pre && exprs[i].Kind != nil && !statementResult(exprs[i].Kind)
+		}
 	}
 	return xf
 }
@@ -427,15 +446,17 @@ func (sh *shared) release(fr *frame) {
 
 // shared is the state common to all invocations of one dispatch.
 type shared struct {
-	p       *Program
-	o       xrt.Opts
-	mc      memCtx
-	steps   int64
-	limit   int64
-	gmem    []*xmem // per global: buffers and workgroup variables (private ones live in inv)
-	wg      [3]uint32
-	groups  [3]uint32
-	pool    [][]*frame // per xfunc id: free frames
+	p      *Program
+	o      xrt.Opts
+	mc     memCtx
+	steps  int64
+	limit  int64
+	gmem   []*xmem // per global: buffers and workgroup variables (private ones live in inv)
+	wg     [3]uint32
+	groups [3]uint32
+	pool   [][]*frame // per xfunc id: free frames
+	mems   []xmem     // storage for gmem entries
+	seq    *inv       // recycled invocation object for barrier-free dispatches
 }
 
 // inv is one invocation.
@@ -449,6 +470,19 @@ type inv struct {
 	lid    [3]uint32
 	wgid   [3]uint32
 	lindex uint32
+	argBuf []uint32
+}
+
+// argWords carves n zeroed words out of the invocation's argument buffer.
+func (x *inv) argWords(n int) []uint32 {
+	if len(x.argBuf)+n > cap(x.argBuf) {
+		x.argBuf = make([]uint32, 0, 64+n) // earlier slices keep the old backing array
+	}
+	s := len(x.argBuf)
+	x.argBuf = x.argBuf[:s+n]
+	w := x.argBuf[s : s+n : s+n]
+	clear(w)
+	return w
 }
 
 type sig uint8
@@ -500,25 +534,50 @@ func (p *Program) Run(bufs xrt.Buffers, o xrt.Opts) (err error) {
 	if nInv > 1024 {
 		return &xrt.Unsupported{What: "workgroup larger than 1024 invocations"}
 	}
-	sh := &shared{p: p, o: o, limit: o.Steps(), wg: ep.Workgroup, groups: o.Groups(), pool: make([][]*frame, p.nfuncs)}
+	// Per-dispatch scratch state (frames, variable storage) is recycled between runs.
+	var sh *shared
+	p.mu.Lock()
+	if n := len(p.scratch); n > 0 {
+		sh = p.scratch[n-1]
+		p.scratch = p.scratch[:n-1]
+	}
+	p.mu.Unlock()
+	if sh == nil {
+		sh = &shared{p: p, pool: make([][]*frame, p.nfuncs), gmem: make([]*xmem, len(m.GlobalVariables)),
+			mems: make([]xmem, len(m.GlobalVariables))}
+	}
+	defer func() {
+		sh.o = xrt.Opts{}
+		sh.mc.trace = nil
+		for i := range sh.mems {
+			sh.mems[i].buf = nil
+		}
+		p.mu.Lock()
+		if len(p.scratch) < 32 {
+			p.scratch = append(p.scratch, sh)
+		}
+		p.mu.Unlock()
+	}()
+	sh.o, sh.limit, sh.steps, sh.wg, sh.groups = o, o.Steps(), 0, ep.Workgroup, o.Groups()
 	sh.mc.trace = o.Trace
-	sh.gmem = make([]*xmem, len(m.GlobalVariables))
 	for i, g := range m.GlobalVariables {
+		sh.gmem[i] = nil
 		switch g.Space {
 		case ir.SpaceUniform, ir.SpaceStorage:
 			if g.Binding == nil {
 				continue
 			}
 			b := xrt.Binding{Group: g.Binding.Group, Binding: g.Binding.Binding}
-			sh.gmem[i] = &xmem{isBuf: true, buf: bufs[b], binding: b, name: g.Name,
+			sh.mems[i] = xmem{isBuf: true, buf: bufs[b], binding: b, name: g.Name,
 				readonly: g.Space == ir.SpaceUniform || g.Access == ir.StorageRead}
+			sh.gmem[i] = &sh.mems[i]
 		}
 	}
-	sync := p.hasSync[epi]
+	barriers := p.hasSync[epi]
 	for gz := uint32(0); gz < sh.groups[2]; gz++ {
 		for gy := uint32(0); gy < sh.groups[1]; gy++ {
 			for gx := uint32(0); gx < sh.groups[0]; gx++ {
-				if err := sh.runGroup(epi, [3]uint32{gx, gy, gz}, int(nInv), sync); err != nil {
+				if err := sh.runGroup(epi, [3]uint32{gx, gy, gz}, int(nInv), barriers); err != nil {
 					return err
 				}
 			}
@@ -549,7 +608,7 @@ func (p *Program) scanSync(epi int) bool {
 	return found
 }
 
-func (sh *shared) runGroup(epi int, wgid [3]uint32, nInv int, sync bool) error {
+func (sh *shared) runGroup(epi int, wgid [3]uint32, nInv int, barriers bool) error {
 	p := sh.p
 	m := p.m
 	// fresh workgroup memory
@@ -560,31 +619,49 @@ func (sh *shared) runGroup(epi int, wgid [3]uint32, nInv int, sync bool) error {
 				sh.gmem[i] = nil
 				continue
 			}
-			sh.gmem[i] = &xmem{words: make([]uint32, xg.ty.words), name: g.Name}
+			w := sh.mems[i].words
+			if len(w) != xg.ty.words {
+				w = make([]uint32, xg.ty.words)
+			} else {
+				clear(w)
+			}
+			sh.mems[i] = xmem{words: w, name: g.Name}
+			sh.gmem[i] = &sh.mems[i]
 		}
 	}
-	mk := func(idx int) *inv {
-		x := &inv{p: p, sh: sh, wgid: wgid, lindex: uint32(idx)}
+	// mk prepares invocation idx; reuse (may be nil) is an invocation object that is no longer running.
+	mk := func(idx int, reuse *inv) *inv {
+		x := reuse
+		if x == nil {
+			x = &inv{p: p, priv: make([]*xmem, len(m.GlobalVariables))}
+		}
+		x.sh, x.wgid, x.lindex, x.yield, x.depth = sh, wgid, uint32(idx), nil, 0
 		x.lid[0] = uint32(idx) % sh.wg[0]
 		x.lid[1] = (uint32(idx) / sh.wg[0]) % sh.wg[1]
 		x.lid[2] = uint32(idx) / (sh.wg[0] * sh.wg[1])
-		x.priv = make([]*xmem, len(m.GlobalVariables))
 		for i, g := range m.GlobalVariables {
 			if g.Space == ir.SpacePrivate {
 				xg := &p.globals[i]
 				if xg.err != nil || xg.ty.words < 0 {
+					x.priv[i] = nil
 					continue
 				}
-				mem := &xmem{words: make([]uint32, xg.ty.words), name: g.Name}
+				mem := x.priv[i]
+				if mem == nil || len(mem.words) != xg.ty.words {
+					mem = &xmem{words: make([]uint32, xg.ty.words), name: g.Name}
+					x.priv[i] = mem
+				} else {
+					clear(mem.words)
+				}
 				copy(mem.words, xg.init)
-				x.priv[i] = mem
 			}
 		}
 		return x
 	}
-	if nInv == 1 || !sync {
+	if nInv == 1 || !barriers {
 		for i := 0; i < nInv; i++ {
-			if err := mk(i).runEntry(epi); err != nil {
+			sh.seq = mk(i, sh.seq)
+			if err := sh.seq.runEntry(epi); err != nil {
 				return err
 			}
 		}
@@ -601,7 +678,7 @@ func (sh *shared) runGroup(epi int, wgid [3]uint32, nInv int, sync bool) error {
 	cos := make([]*co, nInv)
 	for i := range cos {
 		c := &co{}
-		x := mk(i)
+		x := mk(i, nil)
 		seq := iter.Seq[struct{}](func(yield func(struct{}) bool) {
 			x.yield = yield
 			c.err = x.runEntry(epi)
@@ -671,12 +748,13 @@ func (x *inv) runEntry(epi int) error {
 	defer x.sh.release(fr)
 	fr.argW = fr.argW[:0]
 	fr.argP = fr.argP[:0]
+	x.argBuf = x.argBuf[:0]
 	for i, a := range ep.Function.Arguments {
 		at := xf.args[i]
 		if at.err != nil {
 			return at.err
 		}
-		w := make([]uint32, max(at.words, 0))
+		w := x.argWords(max(at.words, 0))
 		if a.Binding != nil && *a.Binding != nil {
 			if err := x.builtin(*a.Binding, at, w); err != nil {
 				return err
